@@ -628,3 +628,41 @@ def copy_class(finfo, name):
         cls.update((a, b))
         changed = True
   return cls
+
+
+class _PathSubst(ast.NodeTransformer):
+
+  def __init__(self, path, idx, depth):
+    self.path, self.idx, self.depth = path, idx, depth
+
+  def visit_Name(self, n):
+    if not isinstance(n.ctx, ast.Load) or self.depth <= 0:
+      return n
+    for i in range(self.idx - 1, -1, -1):
+      s = self.path.steps[i][0]
+      a = s.ast
+      if s.kind == 'stmt' and isinstance(a, ast.Assign) and len(
+          a.targets) == 1 and isinstance(a.targets[0], ast.Name) and \
+          a.targets[0].id == n.id:
+        v = a.value
+        pure = all(isinstance(x, (ast.Name, ast.Attribute, ast.Subscript,
+                                  ast.Constant, ast.Load, ast.Compare, ast.In,
+                                  ast.NotIn, ast.Is, ast.IsNot, ast.Eq,
+                                  ast.NotEq))
+                   for x in ast.walk(v))
+        if not pure:
+          return n
+        from sa import inline  # pylint: disable=g-import-not-at-top
+        return _PathSubst(self.path, i, self.depth - 1).visit(
+            inline._fast_copy(v))  # pylint: disable=protected-access
+    return n
+
+
+def expand_locals(path, expr, before_index=None, depth=4):
+  """Copy of expr in which every local name is replaced by the access path /
+  comparison it was last bound to on `path` (pure expressions only): lets a
+  rule compare `declaration.default_value` with
+  `self._declarations[item].default_value`."""
+  from sa import inline  # pylint: disable=g-import-not-at-top
+  idx = len(path.steps) if before_index is None else before_index
+  return _PathSubst(path, idx, depth).visit(inline._fast_copy(expr))  # pylint: disable=protected-access
